@@ -126,7 +126,7 @@ fn main() {
             for i in &inputs {
                 w.push(smgen::run_input(i));
             }
-            header = "Require Import Verif.Run.EvalSM.";
+            header = "Require Import Verif.Run.EvalProps.";
             ctype = "smcase";
             runner = smgen::runner_for(&args.prop);
         }
